@@ -123,12 +123,12 @@ Lemma record_sim domain body g : (body = [] \/ hd0 body = 32) -> (g_q g <= 10)%n
   rel (SpfRfc.eval_record D X true recS domain body (g_q g)) r (g_q g').
 Proof.
   intros Hb Hq r g'. unfold SpfRfc.eval_record.
-  destruct (parse_record true body) as [ts|] eqn:Ep; [|intros _; exact I].
+  destruct (parse_record body) as [ts|] eqn:Ep; [|intros _; exact I].
   unfold Spf.eval_record.
   destruct Hb as [->|Hb].
   { (* "v=spf1" alone *)
     cbn in Ep. injection Ep as <-. cbn. intros H. injection H as <- <-. cbn. repeat split; auto. }
-  assert (Hc : forallb rec_char body = true /\ parse_terms true (tokens body true) = Some ts).
+  assert (Hc : forallb rec_char body = true /\ parse_terms (tokens body true) = Some ts).
   { unfold parse_record in Ep. destruct body as [|c t]; [discriminate|]. cbn in Hb. subst c.
     change (32 =? 32) with true in Ep. cbn [andb] in Ep.
     destruct (forallb rec_char (32 :: t)) eqn:Q; [|discriminate]. split; [reflexivity|].
@@ -255,4 +255,44 @@ Proof.
   - destruct R as (-> & _). apply Z.eqb_refl.
   - destruct R as (-> & _). reflexivity.
   - reflexivity.
+Qed.
+
+(** the same, spelled out *)
+Theorem check_host_agrees_strict D X domain e0 m0 r g :
+  check_host_c D X domain e0 m0 = Ok (r, g) ->
+  match rfc_check_host_strict D X domain with
+  | RCode z => r = z
+  | RLimit => r = SPF_FAIL /\ g_q g = 11%nat
+  | RSkip => True
+  end.
+Proof.
+  unfold check_host_c, check_host, rfc_check_host_strict, rfc_check_host_gen. intros H.
+  destruct (domain_invalid domain) eqn:Hv; [exact I|].
+  pose proof (spflookup_sim D X _ 13 domain (g_init e0 m0) ltac:(cbn; lia) ltac:(left; split; [reflexivity|exact Hv]) r g H) as R.
+  cbn [g_q g_init] in R. unfold rel in R.
+  destruct (rfc_check_gen D X true 13 domain 0) as [sr c']. cbn [fst snd] in R |- *.
+  destruct sr as [z| |]; [destruct R as (-> & _); reflexivity|destruct R as (-> & -> & ->); split; reflexivity|exact I].
+Qed.
+
+(* ------------------------------------------------------------------ the statement with the class spelled out *)
+From Qv Require Import Proofs.SpfRfcStrict.
+
+(** the class of the agreement theorem, as a decidable predicate: evaluating the zone for this
+    client and domain by RFC 7208 meets neither a record outside the strict macro-free grammar, nor
+    a resolver error RFC 7208 has no result for, nor one of the known deviations of qsmtpd/spf.c *)
+Definition in_class (D : dns) (X : sess) (domain : bytes) : bool :=
+  match rfc_check_host_strict D X domain with RSkip => false | _ => true end.
+
+Theorem rfc_agreement_partial D X domain e0 m0 r g :
+  check_host_c D X domain e0 m0 = Ok (r, g) -> in_class D X domain = true ->
+  match rfc_check_host D X domain with
+  | RCode z => r = z
+  | RLimit => r = SPF_FAIL
+  | RSkip => False
+  end.
+Proof.
+  intros H C. unfold in_class in C.
+  pose proof (check_host_agrees_strict D X domain e0 m0 r g H) as A.
+  destruct (strict_is_rfc D X domain) as [E|E]; [rewrite E in C; discriminate|]. rewrite <- E.
+  destruct (rfc_check_host_strict D X domain) as [z| |]; [exact A|exact (proj1 A)|discriminate].
 Qed.
